@@ -115,7 +115,7 @@ func C05(run *ev.Run, tier string) map[string]interface{} {
 	systems := []sys{
 		{"C05", drv.TableCfg{Hash: "h", HashT: "S", Billing: "PAY_PER_REQUEST", GSI: gsi}, keys},
 		{"C05/HR(S,N)", drv.TableCfg{Hash: "h", HashT: "S", Range: "r", RangeT: "N", Billing: "PAY_PER_REQUEST", GSI: gsi}, []val.Item{{"h": val.S("p"), "r": val.N("1234567890123456789")}, {"h": val.S("p"), "r": val.N("1234567890123456788")}}},
-		{"C05/HR(S,S)", drv.TableCfg{Hash: "h", HashT: "S", Range: "r", RangeT: "S", Billing: "PAY_PER_REQUEST", GSI: gsi}, []val.Item{hrKey("p", "x"), hrKey("p", "x-")}},
+		{"C05/HR(S,S)", drv.TableCfg{Hash: "h", HashT: "S", Range: "r", RangeT: "S", Billing: "PAY_PER_REQUEST", GSI: gsi}, []val.Item{hrKey("p\\", "x.y"), hrKey("p.x", "y")}},
 	}
 	total, per := exploreBoth(run, func(newImpl func() drv.Driver, dn string) []mc.Sys {
 		var out []mc.Sys
@@ -137,7 +137,7 @@ func C05(run *ev.Run, tier string) map[string]interface{} {
 	})
 	cov := total.Coverage()
 	cov["per_system"] = per
-	cov["alphabet"] = "Put/Upd/Del on every key x conditions {attribute_exists(h), attribute_not_exists(h), a=:one, a<>:one, a=:one AND attribute_exists(b), NOT a=:one, ...} x ReturnValuesOnConditionCheckFailure {none, ALL_OLD (SDK v2 only: the v1 request type has no such field)}, plus unconditional Put/Del that build every combination of target and bystander items; one GSI; key schemas H(S) and HR(S,N) with number keys that are neighbours beyond 2^53, HR(S,S) with keys sharing the partition"
+	cov["alphabet"] = "Put/Upd/Del on every key x conditions {attribute_exists(h), attribute_not_exists(h), a=:one, a<>:one, a=:one AND attribute_exists(b), NOT a=:one, ...} x ReturnValuesOnConditionCheckFailure {none, ALL_OLD (SDK v2 only: the v1 request type has no such field)}, plus unconditional Put/Del that build every combination of target and bystander items; one GSI; key schemas H(S) and HR(S,N) with number keys that are neighbours beyond 2^53, HR(S,S) with a hash key ending in a backslash next to keys containing dots"
 	cov["oracle"] = "reference evaluation of the condition on the target item only; success iff true; on false: ConditionalCheckFailedException, full observation (table and index) unchanged, carried Item = unchanged target when requested"
 	return cov
 }
